@@ -818,19 +818,20 @@ def convolve_templates(
     nbins = len(data)
     ntemps = len(temp_bank)
     convs = np.empty((ntemps, nbins), dtype=data.dtype)
-    data_pad = circular_pad_goodsize(data)
-    data_fft = np.fft.rfft(data_pad)
+    # The circular convolution must have the period of the data: transform at
+    # exactly nbins (padding to a good size changes the period and the norm)
+    data_fft = np.fft.rfft(data)
     for itemp in range(ntemps):
         temp_kernel = temp_bank[itemp]
-        temp_pad = np.zeros_like(data_pad)
+        temp_pad = np.zeros_like(data)
         temp_pad[: len(temp_kernel)] = temp_kernel
         # Align the reference bin to the index 0
         temp_pad = np.roll(temp_pad, -ref_bin[itemp])
         # Time reverse the template (for convolution)
         temp_pad = np.roll(temp_pad[::-1], 1)
         temp_norm = normalize_template(temp_pad)
-        conv = np.fft.irfft(data_fft * np.fft.rfft(temp_norm))
-        convs[itemp, :] = conv[:nbins]
+        conv = np.fft.irfft(data_fft * np.fft.rfft(temp_norm), nbins)
+        convs[itemp, :] = conv
     return convs
 
 
